@@ -146,6 +146,17 @@ Definition run_intfns : dispatcher := fun op args =>
     | [a] => match as_rat a with Some a => Some (sx_res sx_N (q_try_as_usize a)) | None => Some sx_bad end
     | _ => Some sx_bad
     end
+  else if opeq op "q-known-noncanon" then
+    (* the known try_as_usize defect applies to the numerator that reaches
+       try_as_usize, i.e. after simplify *)
+    match args with
+    | [a] => match as_rat a with
+             | Some a => Some (sx_bool (match simplify a with
+                                        | Ok s => known_C10_noncanonical (rnum s)
+                                        | _ => false end))
+             | None => Some sx_bad end
+    | _ => Some sx_bad
+    end
   else if opeq op "q-fib" then
     match args with
     | [a] => match as_rat a with
